@@ -52,7 +52,7 @@ struct XCompare : Engine {
     static std::vector<RV> leaves(bool reduced) {
         double e = DBL_EPSILON; std::vector<RV> l = { RV::mk(RV::Null), RV::mk(RV::True), RV::number(1), RV::number(1 + 2 * e), RV::string("s"), RV::number(INFINITY) };
         if (!reduced) { RV raw = RV::mk(RV::Raw); raw.str = "s"; RV raw2 = RV::mk(RV::Raw); raw2.str = "t"; RV raw3 = RV::mk(RV::Raw); raw3.str = "1";   // raw text equal to / different from string values and from each other
-            for (auto& x : std::vector<RV>{ RV::mk(RV::False), RV::number(0), RV::number(nextafter(1.0, 2.0)), RV::number(1e300), RV::number(nextafter(1e300, INFINITY)), RV::number(0x1.8p-1022), RV::number(0x1.8p-1022 + 2 * 0x1p-1074), RV::number(5e-324), RV::number(NAN), RV::number(-1), RV::number(3.0), RV::number(nextafter(3.0, 0.0)), RV::number(-(1.0 - DBL_EPSILON)), RV::string("t"), RV::string(""), raw, raw2, raw3 }) l.push_back(x); }
+            for (auto& x : std::vector<RV>{ RV::mk(RV::False), RV::number(0), RV::number(nextafter(1.0, 2.0)), RV::number(1e300), RV::number(nextafter(1e300, INFINITY)), RV::number(0x1.8p-1022), RV::number(0x1.8p-1022 + 2 * 0x1p-1074), RV::number(5e-324), RV::number(NAN), RV::number(-1), RV::number(3.0), RV::number(nextafter(3.0, 0.0)), RV::number(-(1.0 - DBL_EPSILON)), RV::string("t"), RV::string(""), raw, raw2, raw3, RV::number(DBL_MAX), RV::number(nextafter(DBL_MAX, 0.0)), RV::number(-DBL_MAX), RV::number(-INFINITY), RV::number(2147483648.0), RV::number(2147483649.0), RV::number(-1e300) }) l.push_back(x); }
         return l;
     }
     int group = 0;   // > 0: the trees come in groups of this size and only pairs inside a group are compared
@@ -163,7 +163,7 @@ struct XCompare : Engine {
     void before_stage(const std::string& stage) override { if (stage.find("replay:") == 0) { cfg.opt["stage"] = stage.substr(7); built_for.clear(); build(stage.substr(7)); } }
     std::string describe(const Case& c) override { if (c.kind == 2) return "NULL / invalid nodes"; size_t i = (size_t)c.iv[1], j = (size_t)c.iv[2]; if (i >= T.size() || (c.kind == 0 && j >= T.size())) return "pair"; return c.kind == 1 ? "self/variants of " + rv_text(T[i]) : rv_text(T[i]) + " vs " + rv_text(T[j]) + (c.iv[3] ? " cs" : " ci"); }
     void finish(std::map<std::string, std::string>& x) override {
-        x["rule"] = jstr("all ordered pairs (a,b) of all trees with <= n nodes over 24 leaves (incl. numbers one and two epsilon apart, huge, tiny, denormal, infinite, NaN, raw) and keys {a,A,b} x {case-sensitive, case-insensitive}; b is built in one of three ownership variants "
+        x["rule"] = jstr("all ordered pairs (a,b) of all trees with <= n nodes over 31 leaves (incl. numbers one and two epsilon apart, huge, tiny, denormal, infinite, NaN, raw) and keys {a,A,b} x {case-sensitive, case-insensitive}; b is built in one of three ownership variants "
                          "(plain, constant keys, string references + reference nodes); non-trivial = pairs the model calls equal; pairs left open by the statement (both non-finite, exactly on the tolerance boundary, keys colliding after folding) are counted as unconstrained");
     }
 };
